@@ -240,54 +240,54 @@ class JSONDriver(BaseDriver):
 
         logger.debug('loading from %s', self._file_path)
 
-        try:
-            # If the file is accessible but empty, consider data loaded and return empty dictionary
-            if os.stat(self._file_path).st_size == 0:
-                logger.debug('file %s is empty', self._file_path)
+        backup_file_path = self._get_backup_file_path()
+
+        if not os.path.exists(self._file_path) or os.stat(self._file_path).st_size == 0:
+            # If the file does not exist or is empty, consider data loaded and return empty dictionary, unless there is a
+            # backup: a save may have been interrupted right after the previous file has been turned into the backup
+            logger.debug('file %s does not exist or is empty', self._file_path)
+            if not (self._use_backup and os.path.exists(backup_file_path)):
                 return {}
-        except FileNotFoundError:
-            # If the file does not exist, consider data loaded and return empty dictionary
-            logger.debug('file %s does not exist', self._file_path)
-            return {}
+        else:
+            try:
+                with open(self._file_path, 'rb') as f:
+                    data = f.read()
+                    return json_utils.loads(data, extra_types=json_utils.EXTRA_TYPES_EXTENDED)
+            except Exception as e:
+                if not self._use_backup:
+                    raise
 
-        try:
-            with open(self._file_path, 'rb') as f:
-                data = f.read()
-                return json_utils.loads(data, extra_types=json_utils.EXTRA_TYPES_EXTENDED)
-        except Exception as e:
-            if not self._use_backup:
-                raise
+                # Upon failure, if using a backup, simply log the error and attempt to load from backup file
+                logger.error('failed to load from %s: %s', self._file_path, e, exc_info=True)
 
-            # Upon failure, if using a backup, simply log the error and attempt to load from backup file
-            logger.error('failed to load from %s: %s', self._file_path, e, exc_info=True)
+        logger.warning('loading from backup %s', backup_file_path)
 
-            backup_file_path = self._get_backup_file_path()
-            if backup_file_path:
-                logger.warning('loading from backup %s', backup_file_path)
-
-                with open(backup_file_path, 'rb') as f:
-                    return json_utils.loads(f.read(), extra_types=json_utils.EXTRA_TYPES_EXTENDED)
-
-        return {}
+        with open(backup_file_path, 'rb') as f:
+            return json_utils.loads(f.read(), extra_types=json_utils.EXTRA_TYPES_EXTENDED)
 
     def _save(self, data: UnindexedData) -> None:
         if not self._file_path:
             return
 
-        if self._use_backup and os.path.exists(self._file_path):
-            backup_file_path = self._get_backup_file_path()
-            if not backup_file_path:
-                return
-            logger.debug('backing up %s to %s', self._file_path, backup_file_path)
-            os.rename(self._file_path, backup_file_path)
-
         logger.debug('saving to %s', self._file_path)
 
-        with open(self._file_path, 'wb') as f:
+        # Never write the data file in place: an interrupted save must leave either the old or the new content behind.
+        # The new content goes to a temporary file, which replaces the data file only when completely written.
+        temp_file_path = f'{self._file_path}.tmp'
+        with open(temp_file_path, 'wb') as f:
             data = json_utils.dumps(
                 data, extra_types=json_utils.EXTRA_TYPES_EXTENDED, indent=4 if self._pretty_format else None
             )
             f.write(data.encode())
+            f.flush()
+            os.fsync(f.fileno())
+
+        if self._use_backup and os.path.exists(self._file_path):
+            backup_file_path = self._get_backup_file_path()
+            logger.debug('backing up %s to %s', self._file_path, backup_file_path)
+            os.rename(self._file_path, backup_file_path)
+
+        os.replace(temp_file_path, self._file_path)
 
     @staticmethod
     def _index(data: UnindexedData) -> IndexedData:
